@@ -24,6 +24,7 @@ func main() {
 	c := vlib.Start("C17")
 	initZones(c) // re-executes the child once, in the time zone of this shard
 	installStdoutSink()
+	installStdLogProbe() // before the first file logger exists
 	initTmp(c)
 	defer cleanupTmp()
 	race := c.Flavour == "race"
@@ -61,6 +62,14 @@ func main() {
 		c.Floor("suppressed_decisively_inside", int64(n)/10/sh, c.Counter("suppressed_decisively_inside"))
 		c.Floor("repeats_logged_outside_interval", int64(n)/10/sh, c.Counter("repeats_logged_outside_interval"))
 		c.Floor("calls_below_level", int64(n)/sh, c.Counter("calls_below_level"))
+
+		n = c.N(200, 3200)
+		secMultiLogger(c, n)
+		c.Floor("multi_logger_scenarios", int64(n)/10/sh, c.Counter("multi_logger_scenarios"))
+		c.Floor("multi_logger_lines_matched", int64(n)*3/sh, c.Counter("multi_logger_lines_matched"))
+		c.Floor("multi_logger_lines_matched_on_a_logger_that_did_not_open_its_file_last", int64(n)/sh, c.Counter("multi_logger_lines_matched_on_a_logger_that_did_not_open_its_file_last"))
+		c.Floor("multi_logger_cycles_of_some_while_others_stay", int64(n)/40/sh, c.Counter("multi_logger_cycles_of_some_while_others_stay"))
+		c.Floor("multi_logger_process_lines_interleaved", int64(n)/4/sh, c.Counter("multi_logger_process_lines_interleaved"))
 
 		n = c.N(320, 6400)
 		secRotation(c, n)
@@ -100,6 +109,10 @@ func main() {
 		c.Floor("read_nonnil_compared", int64(n)*2/sh, c.Counter("read_nonnil_compared"))
 		c.Floor("read_traversal_probes", int64(n)/2/sh, c.Counter("read_traversal_probes"))
 	}
+	c.Floor("standard_logger_checks", int64(nMulti)/sh, c.Counter("standard_logger_checks"))
+	c.Floor("process_log_lines_arrived_at_own_writer", int64(nMulti)/2/sh, c.Counter("process_log_lines_arrived_at_own_writer"))
+	c.Floor("scenarios_with_level_name_not_plain_lower_case", int64(nMulti)/20/sh, c.Counter("scenarios_with_level_name_not_plain_lower_case"))
+	c.Floor("scenarios_with_boolean_not_plain_lower_case", int64(nMulti)/20/sh, c.Counter("scenarios_with_boolean_not_plain_lower_case"))
 	closeStdoutSink(c)
 	c.Floor("stdout_sink_message_lines_drained", int64(nMulti)/sh, c.Counter("stdout_sink_message_lines_drained"))
 	c.Finish()
